@@ -46,112 +46,190 @@ def r1_cbtf(ctx):
     for node in T.checked:
         if id(node) not in bad:
             ctx.ok(f"cbtf: `{ast.unparse(node)[:70]}` boundary / interior index spaces agree", node)
-    t = utext(fn)
-    ok = "qset=locate.flippv(bset,lt)" in t and "lt=m.shape[0]" in t
-    ctx.check(ok, "cbtf: the interior set is the complement of the boundary set in the full equation set", fn)
-    # --- the enforced boundary acceleration is returned exactly, the interior acceleration comes from the solver
-    stores = {ast.unparse(s.targets[0]).replace(" ", ""): ast.unparse(s.value).replace(" ", "") for s in ast.walk(arm[0])
-              if isinstance(s, ast.Assign) and isinstance(s.targets[0], ast.Subscript)}
-    ok = stores.get("accel[bset]") == "a" and stores.get("accel[qset]") == "sol.a"
+    # --- everything below is decided on formulas: the function body is evaluated on symbols (AutoEvaluator), temporaries substituted
+    from .e2_eval import AutoEvaluator
+
+    def cond(test, ev):
+        # the interior set is not empty; the solver is not cached (the arm that builds it is the one to look at)
+        return {"qset.size==0": False, "tfisNone": True, "isinstance(save,abc.MutableMapping)": False}.get(utext(test))
+
+    ev = AutoEvaluator(fn, src=ctx.src, cond=cond, pinned={"a": F.sym("a")})
+    ev.decide_default = None
+    # the cache test `save is None or 'tf' not in save` may go either way: evaluate the arm that builds the solver
+    for st in fn.body:
+        ev.stmt(st)
+    E = ev.expr
+
+    def same(got, want_text):
+        w = E(want_text)
+        return got is not None and not is_unknown(got) and not is_unknown(w) and not isinstance(got, tuple) and need(got).equals(need(w))
+
+    ok = same(ev.env.get("qset"), "locate.flippv(bset, m.shape[0])")
+    ctx.check(ok, "cbtf: the interior set is the complement of the boundary set in the full equation set", fn, repr(ev.env.get("qset")))
+    cells = {}
+    for nm, ix, val, st in ev.cells:
+        cells.setdefault(nm, []).append((ix, val, st))
+
+    def cell(nm, index_text):
+        w = E(f"{nm}[{index_text}]")          # idx(nm, index) atom; compare index parts
+        for ix, val, st in cells.get(nm, []):
+            if not is_unknown(ix) and need(F.fn("idx", F.sym(nm), ix)).equals(need(w)):
+                return val
+        return None
+
+    nz = "Omega != 0.0"
+    ok = same(cell("accel", "bset"), "a") and same(cell("accel", "qset"), "sol.a")
     ctx.check(ok, "cbtf: the returned boundary acceleration is the enforced one at every frequency (including 0 Hz, where it cannot be derived from the "
-                  "displacement) and the interior acceleration is the solver's", arm[0], {k: v for k, v in stores.items() if k.startswith("accel")})
-    ok = stores.get("displ[qset]") == "sol.d" and stores.get("displ[np.ix_(bset,pvnz)]") == "-a[:,pvnz]/Omega[pvnz]**2"
-    ctx.check(ok, "cbtf: boundary displacement = -a/W^2 at non-zero frequencies only, interior displacement from the solver", arm[0])
-    # --- q-set equation of motion:  Mqq q'' + Bqq q' + Kqq q = -(Mqb a + Bqb v_b),  v_b = a/(i W)
-    A, W = F.sym("A"), F.sym("W")
-    Mqb, Bqb = F.sym("Mqb"), F.sym("Bqb")
-
-    def sub(node, ev):
-        tt = utext(node)
-        return {"a[:,pvnz]": A, "Omega[pvnz]": W, "b[qb]": Bqb, "m[qb]": Mqb}.get(tt, NotImplemented)
-
-    ev = Evaluator(env={"a": A}, src=ctx.src, subscript=sub, store_accept=lambda b_, i, st: b_ == "v",
-                   call=lambda node, ev: (F.const(0) if dotted(node.func) == "np.zeros" else NotImplemented))
-    for s in arm[0].orelse:
-        if isinstance(s, ast.Assign) and ast.unparse(s.targets[0]).replace(" ", "") in ("v", "v[:,pvnz]", "f"):
-            ev.stmt(s)
-    f = ev.env.get("f")
-    want = -(Mqb * A + Bqb * (A / (F.I * W)))
-    ok = f is not None and not is_unknown(f) and f.equals(want)
-    ctx.check(ok, "cbtf: interior load is -(Mqb a + Bqb a/(i W)) - the coupling terms of the full equations of motion moved to the right-hand side", arm[0],
-              None if ok else repr(f))
+                  "displacement) and the interior acceleration is the solver's", arm[0], {"accel[bset]": repr(cell("accel", "bset")), "accel[qset]": repr(cell("accel", "qset"))})
+    ok = same(cell("displ", "qset"), "sol.d") and same(cell("displ", f"np.ix_(bset, {nz})"), f"-a[:, {nz}] / Omega[{nz}] ** 2")
+    ctx.check(ok, "cbtf: boundary displacement = -a/W^2 at non-zero frequencies only, interior displacement from the solver", arm[0],
+              {"displ[qset]": repr(cell("displ", "qset")), "displ[bset, nz]": repr(cell("displ", f"np.ix_(bset, {nz})"))})
+    # --- q-set equation of motion:  Mqq q'' + Bqq q' + Kqq q = -(Mqb a + Bqb v_b),  v_b = a/(i W) at non-zero frequencies, 0 at 0 Hz
+    ok = same(cell("v", f":, {nz}"), f"1j * a[:, {nz}] / Omega[{nz}]")
+    vinit = ev.env.get("<init:v>")
+    ok = ok and vinit is not None and not is_unknown(vinit) and need(vinit).is_zero()
+    ctx.check(ok, "cbtf: the boundary term v is i a / W (minus the boundary velocity a/(i W)) at non-zero frequencies and zero at 0 Hz", arm[0],
+              repr(cell("v", f":, {nz}")))
+    ok = same(ev.env.get("f"), "b[np.ix_(locate.flippv(bset, m.shape[0]), bset)] @ v - m[np.ix_(locate.flippv(bset, m.shape[0]), bset)] @ a")
+    ctx.check(ok, "cbtf: interior load is Bqb v - Mqb a with v = i a / W, i.e. -(Mqb a + Bqb a/(i W)) - the coupling terms of the full equations of "
+                  "motion moved to the right-hand side", arm[0], repr(ev.env.get("f")))
     # --- boundary force: rows bset of M a + B v + K d (K_bq = 0 for a Craig-Bampton stiffness)
-    ok = "frc=m[bset]@accel+b[bset]@veloc+k[bb]@displ[bset]" in t
-    ctx.check(ok, "cbtf: boundary force = boundary rows of M a + B v + K d", arm[0])
-    ok = "veloc=1j*(Omega*displ)" in t
-    ctx.check(ok, "cbtf: velocity = i W displacement on every row", fn)
+    ok = same(ev.env.get("frc"), "m[bset] @ accel + b[bset] @ veloc_ + k[np.ix_(bset, bset)] @ displ[bset]".replace("veloc_", "(1j * (Omega * displ))"))
+    ctx.check(ok, "cbtf: boundary force = boundary rows of M a + B v + K d with v = i W d", arm[0], repr(ev.env.get("frc")))
+    ok = same(ev.env.get("veloc"), "1j * (Omega * displ)")
+    ctx.check(ok, "cbtf: velocity = i W displacement on every row", fn, repr(ev.env.get("veloc")))
     # --- the fixed-base interior system has no rigid-body modes
     calls = [c for c in ast.walk(fn) if isinstance(c, ast.Call) and dotted(c.func) == "ode.SolveUnc"]
-    ok = len(calls) == 1 and [utext(a) for a in calls[0].args] == ["m[qq]", "b[qq]", "k[qq]"] and \
-        any(k.arg == "rb" and ast.unparse(k.value) == "[]" for k in calls[0].keywords)
+    qq = "np.ix_(locate.flippv(bset, m.shape[0]), locate.flippv(bset, m.shape[0]))"
+    ok = len(calls) == 1 and len(calls[0].args) == 3 and all(same(ev.ev(x), f"{mat}[{qq}]") for x, mat in zip(calls[0].args, "mbk")) and \
+        any(k.arg == "rb" and utext(k.value) in ("[]", "()") for k in calls[0].keywords)
     ctx.check(ok, "cbtf: the interior (fixed-boundary) system is solved with rb=[] - no mode may be treated as rigid-body (the default would auto-detect "
                   "soft fixed-base modes and ignore their stiffness and damping)", calls[0] if calls else fn)
+    t = utext(fn)
     ok = "tf=save['tf']" in t and "save['tf']=tf" in t
     ctx.check(ok, "cbtf: the cached solver is the one built from (m[qq], b[qq], k[qq])", fn, nontrivial=False)
 
 
+def _returns_under(ctx, fn, truth):
+    """values returned by `fn` on the paths selected by the oracle `truth` (tests it does not know fork); AutoEvaluator per path"""
+    from .e2_eval import AutoEvaluator
+    from .paths import flag_paths
+    out = []
+    for trace, end in flag_paths(fn.body, truth):
+        if not isinstance(end, ast.Return) or end.value is None:
+            continue
+        ev = AutoEvaluator(fn, src=ctx.src)
+        for st in trace:
+            ev.stmt(st)
+        out.append((ev.ev(end.value), end, ev))
+    return out
+
+
 def r2_conversion(ctx):
+    """unit conversion: the m2e and e2m constants are reciprocals; cbconvert scales translations, rotations and modal DOF by the documented factors
+    (C on the columns, D on the rows) and the reciprocal factors undo it; uset_convert scales exactly the rows that hold lengths"""
+    from .e2_eval import AutoEvaluator
     fn = ctx.src.func(CB, "_get_conv_factors")
     vals = {}
-    for st in ast.walk(fn):
-        if isinstance(st, ast.If) and isinstance(st.test, ast.Compare) and isinstance(st.test.comparators[0], ast.Constant):
-            name = st.test.comparators[0].value
-            d = {}
-            for s in st.body:
-                if isinstance(s, ast.Assign):
-                    d[ast.unparse(s.targets[0])] = s.value
-            vals[name] = d
-    if set(vals) != {"m2e", "e2m"}:
-        raise AnchorError("_get_conv_factors: m2e / e2m arms")
-
-    def exact(node):
-        ev = Evaluator(env={}, src=ctx.src)
-        v = ev.ev(node)
-        return need(v).const_value()
-
-    for q in ("lengthconv", "massconv"):
-        a, b = exact(vals["m2e"][q]), exact(vals["e2m"][q])
-        err = abs(a * b - 1)
+    for name in ("m2e", "e2m"):
+        def truth(test, name=name):
+            t = utext(test)
+            if t.startswith("conv==") and isinstance(test, ast.Compare) and isinstance(test.comparators[0], ast.Constant):
+                return test.comparators[0].value == name
+            return None
+        rets = _returns_under(ctx, fn, truth)
+        if len(rets) != 1 or not isinstance(rets[0][0], tuple) or len(rets[0][0]) != 2 or any(is_unknown(x) for x in rets[0][0]):
+            ctx.error(f"_get_conv_factors('{name}'): the returned (lengthconv, massconv) pair was not lowered", fn, repr(rets[0][0]) if rets else None)
+            return
+        vals[name] = [need(x) for x in rets[0][0]]
+    for i, q in enumerate(("lengthconv", "massconv")):
+        a_, b_ = vals["m2e"][i], vals["e2m"][i]
+        if not (a_.is_const() and b_.is_const()):
+            ctx.error(f"_get_conv_factors: {q} is not a literal constant", fn)
+            continue
+        err = abs(a_.const_value() * b_.const_value() - 1)
         ok = err <= Fraction(1, 2 ** 51)
         ctx.check(ok, f"_get_conv_factors: the {q} of m2e and e2m are reciprocals (product within 2^-51 of 1)", fn, {"product - 1": float(err)})
+    # a user-supplied pair is passed through
+    rets = _returns_under(ctx, fn, lambda test: False if utext(test).startswith("conv==") else None)
+    ok = len(rets) == 1 and isinstance(rets[0][0], tuple) and len(rets[0][0]) == 2
+    ctx.check(ok, "_get_conv_factors: any other `conv` is taken as the (lengthconv, massconv) pair itself", fn, nontrivial=False)
     # cbconvert factors
     fn = ctx.src.func(CB, "cbconvert")
     L, mc = F.sym("L"), F.sym("mc")
-    ev = Evaluator(env={"lengthconv": L, "massconv": mc}, src=ctx.src,
-                   cond=lambda t_, ev: True if utext(t_) == "lq>0" else None,
-                   call=lambda node, ev: (F.const(1) if dotted(node.func) == "np.ones" else NotImplemented))
-    for s in fn.body:
-        if isinstance(s, ast.Assign) and ast.unparse(s.targets[0]).replace(" ", "") in ("C", "D", "C[b[trn]]", "D[b[trn]]", "D[b[rot]]", "c", "C[q]", "D[q]"):
-            ev.stmt(s)
-        if isinstance(s, ast.If) and ast.unparse(s.test).replace(" ", "") == "lq>0":
-            for s2 in s.body:
-                if isinstance(s2, ast.Assign):
-                    ev.stmt(s2)
-    st = {(b_, i.replace(" ", "")): v for b_, i, v, s_ in ev.stores}
-    want = {("C", "b[trn]"): 1 / L, ("D", "b[trn]"): mc * L, ("D", "b[rot]"): mc * L * L}
-    for k_, w in want.items():
-        v = st.get(k_)
-        ok = v is not None and not is_unknown(v) and v.equals(w)
-        ctx.check(ok, f"cbconvert: {k_[0]}[{k_[1]}] = {w} (C converts displacements OUT->IN, D converts forces IN->OUT)", fn, None if ok else repr(v))
-    cq, dq = st.get(("C", "q")), st.get(("D", "q"))
-    ok = cq is not None and dq is not None and not is_unknown(cq) and not is_unknown(dq) and (cq * dq).equals(1) and (dq * dq).equals(mc * L * L)
-    ctx.check(ok, "cbconvert: modal DOF are scaled by sqrt(massconv) * lengthconv and its reciprocal (C D = 1 on the q-set)", fn)
-    # e2m after m2e is the identity on every block: factors with (1/L, 1/mc) are the reciprocals
+
+    def call(node, ev):
+        d = dotted(node.func)
+        if d == "_get_conv_factors":
+            return (L, mc)
+        if d == "math.sqrt":
+            v = ev.ev(node.args[0])
+            return v if is_unknown(v) else F.sqrt(need(v))
+        return NotImplemented
+
+    ev = AutoEvaluator(fn, src=ctx.src, call=call, cond=lambda t_, ev: {"lq>0": True, "drm": False}.get(utext(t_)),
+                       pinned={"b": F.sym("b"), "M": F.sym("M")})
+    ev.run(fn.body)
+    E = ev.expr
+    cells = [(nm, ix, val) for nm, ix, val, st in ev.cells]
+
+    def cell(nm, index_text):
+        w = E(f"{nm}[{index_text}]")
+        for n2, ix, val in cells:
+            if n2 == nm and not is_unknown(ix) and not is_unknown(w) and need(F.fn("idx", F.sym(nm), ix)).equals(need(w)):
+                return val
+        return None
+    trn = "b[ytools.mkpattvec([0, 1, 2], len(b), 6).ravel()]"
+    rot = "b[ytools.mkpattvec([0, 1, 2], len(b), 6).ravel() + 3]"
+    qset = "locate.flippv(b, np.size(M, 1))"
+    want = {("C", trn, "translations"): 1 / L, ("D", trn, "translations"): mc * L, ("D", rot, "rotations"): mc * L * L}
+    for (nm, ixt, what), w in want.items():
+        v = cell(nm, ixt)
+        ok = v is not None and not is_unknown(v) and need(v).equals(w)
+        ctx.check(ok, f"cbconvert: {nm} on the boundary {what} (DOF {'1-3' if what == 'translations' else '4-6'} of each boundary grid) = {w} "
+                      "(C converts displacements OUT->IN, D converts forces IN->OUT)", fn, None if ok else repr(v))
+    crot = cell("C", rot)
+    ctx.check(crot is None, "cbconvert: C leaves the boundary rotations alone (rotations are dimensionless)", fn, repr(crot), nontrivial=False)
+    cq, dq = cell("C", qset), cell("D", qset)
+    ok = cq is not None and dq is not None and not is_unknown(cq) and not is_unknown(dq) and (need(cq) * need(dq)).equals(1) and (need(dq) * need(dq)).equals(mc * L * L)
+    ctx.check(ok, "cbconvert: modal DOF are scaled by sqrt(massconv) * lengthconv and its reciprocal (C D = 1 on the q-set)", fn,
+              None if ok else {"C[q]": repr(cq), "D[q]": repr(dq)})
     inv = {"L": 1 / L, "mc": 1 / mc}
-    ok = all((w * w.subs(inv)).equals(1) for w in want.values()) and cq is not None and (cq * cq.subs(inv) * cq * cq.subs(inv)).equals(1)
+    ok = all((w * w.subs(inv)).equals(1) for w in want.values()) and cq is not None and not is_unknown(cq) and \
+        (need(cq) * need(cq).subs(inv) * need(cq) * need(cq).subs(inv)).equals(1)
     ctx.check(ok, "cbconvert: converting with the reciprocal factors undoes the conversion on translations, rotations and modal DOF", fn)
-    t = utext(fn)
-    ok = "M=ytools.multmd(M,C)" in t and "ifnotdrm:M=ytools.multmd(D,M)" in t.replace("\n", "") and "trn=ytools.mkpattvec([0,1,2],lb,6).ravel()" in t and "rot=trn+3" in t
-    ctx.check(ok, "cbconvert: C scales the columns, D the rows (rows only for square matrices); translations are DOF 1-3 and rotations DOF 4-6 of each boundary grid", fn)
+    for nm in ("C", "D"):
+        ini = ev.env.get(f"<init:{nm}>")
+        ok = ini is not None and not is_unknown(ini) and need(ini).equals(need(E("np.ones(np.size(M, 1))")))
+        ctx.check(ok, f"cbconvert: {nm} starts as ones over all np.size(M, 1) DOF", fn, repr(ini), nontrivial=False)
+    # M <- D M C (rows only for square matrices): evaluate the returned value for drm False / True
+    for drm in (False, True):
+        ev2 = AutoEvaluator(fn, src=ctx.src, call=call, cond=lambda t_, ev, drm=drm: {"lq>0": True, "drm": drm}.get(utext(t_)), pinned={"b": F.sym("b"), "M": F.sym("M")})
+        # M is rebound (M = multmd(M, C)): follow the rebinding chain explicitly
+        val = F.sym("M")
+        chain = []
+        for st in fn.body:
+            if isinstance(st, ast.If) and utext(st.test) in ("notdrm", "drm"):
+                take = st.body if (utext(st.test) == "notdrm") == (not drm) else st.orelse
+                chain.extend(take)
+            else:
+                chain.append(st)
+        for st in chain:
+            if isinstance(st, ast.Assign) and utext(st.targets[0]) == "M" and isinstance(st.value, ast.Call) and dotted(st.value.func) == "ytools.multmd":
+                a0, a1 = [utext(x) for x in st.value.args]
+                val = F.fn("multmd", F.sym(a0) if a0 != "M" else val, F.sym(a1) if a1 != "M" else val)
+        want_v = F.fn("multmd", F.sym("M"), F.sym("C")) if drm else F.fn("multmd", F.sym("D"), F.fn("multmd", F.sym("M"), F.sym("C")))
+        ok = val.equals(want_v)
+        ctx.check(ok, f"cbconvert (drm={drm}): the result is {'M C (columns only: a recovery matrix maps displacements)' if drm else 'D M C'}", fn, repr(val))
     # uset_convert: exactly the rows that hold lengths
     fn = ctx.src.func(CB, "uset_convert")
     ks = []
     pvk = None
-    for s in fn.body:
-        if isinstance(s, ast.Assign) and ast.unparse(s.targets[0]) == "pv" and isinstance(s.value, ast.Compare) and ast.unparse(s.value.left) == "dof":
-            pvk = ast.literal_eval(s.value.comparators[0])
-        if isinstance(s, ast.AugAssign) and ast.unparse(s.target).replace(" ", "") == "uset.iloc[pv,1:]" and isinstance(s.op, ast.Mult) \
-                and ast.unparse(s.value) == "lengthconv":
+    for s_ in fn.body:
+        if isinstance(s_, ast.Assign) and ast.unparse(s_.targets[0]) == "pv" and isinstance(s_.value, ast.Compare) and ast.unparse(s_.value.left) == "dof":
+            pvk = ast.literal_eval(s_.value.comparators[0])
+        if isinstance(s_, ast.AugAssign) and ast.unparse(s_.target).replace(" ", "") == "uset.iloc[pv,1:]" and isinstance(s_.op, ast.Mult) \
+                and ast.unparse(s_.value) == "lengthconv":
             ks.append(pvk)
     ok = sorted(ks) == [1, 3]
     ctx.check(ok, "uset_convert: the length factor is applied to exactly the rows that hold lengths - row 1 (grid location) and row 3 (origin of the grid's "
@@ -159,36 +237,50 @@ def r2_conversion(ctx):
     rb = ctx.src.func(N2P, "rbgeom_uset")
     ok = utext(rb).count("loc2=t@(loc-uset.iloc[i+2,1:]).values") == 2
     ctx.check(ok, "rbgeom_uset (sibling witness): the location (row 1) and the origin (row 3) of a grid are subtracted from each other, so they must share units", rb)
-    ok = "lengthconv=_get_conv_factors(conv)[0]" in utext(fn) and "uset=uset.copy()" in utext(fn)
-    ctx.check(ok, "uset_convert: works on a copy with the length factor of the requested conversion", fn, nontrivial=False)
+    # lengthconv is the first element of _get_conv_factors(conv): `x = f(conv)[0]` or `x, _ = f(conv)`
+    ev3 = AutoEvaluator(fn, src=ctx.src, call=lambda node, ev: ((F.sym("LC"), F.sym("MC")) if dotted(node.func) == "_get_conv_factors" else NotImplemented))
+    for st in fn.body:
+        if isinstance(st, ast.Assign):
+            ev3.stmt(st)
+    lc = ev3.env.get("lengthconv")
+    ok = lc is not None and not is_unknown(lc) and not isinstance(lc, tuple) and need(lc).equals(F.sym("LC"))
+    cp = ev3.env.get("uset")
+    ok2 = cp is not None and not is_unknown(cp) and need(cp).equals(need(ev3.expr("uset_.copy()".replace("uset_", "uset"))))
+    ctx.check(ok, "uset_convert: uses the length factor (first element) of the requested conversion", fn, repr(lc), nontrivial=False)
 
 
 def r3_reorder(ctx):
+    from .e2_eval import AutoEvaluator
+    """cbreorder: square matrices are permuted symmetrically (rows and columns by the same vector), recovery matrices by columns only, and the
+    vector is (b, q) or (q, b) with q the complement of b - on every path through the function"""
     fn = ctx.src.func(CB, "cbreorder")
     n = 0
-    for sub in ast.walk(fn):
-        if isinstance(sub, ast.Subscript) and ast.unparse(sub.value) == "M":
-            s = sub.slice
-            if isinstance(s, ast.Call) and dotted(s.func) == "np.ix_":
+    for drm in (False, True):
+        for last in (False, True):
+            for lq0 in (False, True):
+                def truth(test, drm=drm, last=last, lq0=lq0):
+                    return {"drm": drm, "last": last, "lq==0": lq0}.get(utext(test))
+                rets = _returns_under(ctx, fn, truth)
+                vals = {repr(v) for v, end, ev in rets}
+                if len(rets) < 1 or any(is_unknown(v) or isinstance(v, tuple) for v, _, _ in rets):
+                    ctx.error(f"cbreorder (drm={drm}, last={last}, q empty={lq0}): returned value not lowered", fn, sorted(vals))
+                    continue
+                ev = rets[0][2]
+                q = "locate.flippv(b, np.size(M, 1))"
+                pv = "b" if lq0 else (f"np.hstack(({q}, b))" if last else f"np.hstack((b, {q}))")
+                want = f"M[:, {pv}]" if drm else f"M[np.ix_({pv}, {pv})]"
+                w = AutoEvaluator(None, src=ctx.src).expr(want)
+                ok = len(vals) == 1 and not is_unknown(w) and need(rets[0][0]).equals(need(w))
                 n += 1
-                a = [ast.unparse(x) for x in s.args]
-                ok = len(a) == 2 and a[0] == a[1]
-                ctx.check(ok, f"cbreorder: `{ast.unparse(sub)}` permutes rows and columns by the same vector (a symmetric permutation)", sub)
-            elif isinstance(s, ast.Tuple):
-                n += 1
-                ok = ast.unparse(s.elts[0]) == ":" or (isinstance(s.elts[0], ast.Slice) and s.elts[0].lower is None)
-                doms = [ast.unparse(a.test) for a in ancestors(sub) if isinstance(a, ast.If) and any(sub is y for x in a.body for y in ast.walk(x))]
-                ctx.check(ok and "drm" in doms, f"cbreorder: `{ast.unparse(sub)}` permutes columns only, and only for a data recovery matrix", sub)
-    ctx.check(n == 4, "cbreorder: four reordering sites", fn, n, nontrivial=False)
-    t = utext(fn)
-    ok = "q=locate.flippv(b,lt)" in t and "iflast:pv=np.hstack((q,b))else:pv=np.hstack((b,q))" in t.replace("\n", "")
-    ctx.check(ok, "cbreorder: the new order is (b, q) or (q, b) with q the complement of b", fn)
+                ctx.check(ok, f"cbreorder (drm={drm}, last={last}, q {'empty' if lq0 else 'present'}): returns {want.replace(q, 'q')}"
+                              + ("" if drm else " - a symmetric permutation"), rets[0][1], None if ok else {"got": sorted(vals), "want": repr(w)})
+    ctx.check(n == 8, "cbreorder: eight option combinations evaluated", fn, n, nontrivial=False)
 
 
 RULES = [
     ("C06-R1", r1_cbtf, 14),
     ("C06-R2", r2_conversion, 11),
-    ("C06-R3", r3_reorder, 5),
+    ("C06-R3", r3_reorder, 8),
 ]
 LEVEL = "other"
 EXPLANATION = ("Static: cbtf uses the boundary/interior partitions consistently (index-space typing), returns the enforced boundary acceleration itself, loads the "
